@@ -14,6 +14,15 @@ compute_dyadic_downscaling) and RECORD what it wrote.  No judging here.
   command-line entry point scripts.compute_scales.main(argv) in this process
   (--downscaling-method / --outside-value / --flat / --no-gzip), method "auto"
   included.
+* function-API path: ONE downscaler object per (method, outside value, info
+  type) is obtained from get_downscaler and RE-USED for every pyramid of the
+  run (shared_downscaler), so that pyramids of different data types, channel
+  counts and sizes share an object, as a long-lived caller would; the
+  reference is built from the class, freshly, for every job.
+* all-in-one path: scripts.volume_to_precomputed_pyramid.main(argv) on a NIfTI
+  file written with nibabel (identity affine); the tool converts the volume,
+  generates the scales (fixed target chunk 64) and computes the pyramid; the
+  FINAL info and every level are read back.
 * source faults: right before the step that reads scale k, one chunk of scale
   k is removed ("missing"), gets a bad gzip magic number ("badgzip") or loses
   its last byte ("truncated", raw encoding without gzip); for sharded storage
@@ -203,13 +212,35 @@ def cli_argv(workdir, storage, method, outside_value, explicit_auto):
     return argv + [workdir]
 
 
-def run_cli(argv):
-    """scripts.compute_scales.main(argv) in this process; the accessor the tool
+_SHARED = {}
+_SHARED_SEEN = {}
+
+
+def shared_downscaler(method, info, outside_value):
+    """one downscaler object per (method, outside value, info type) for the
+    whole run; also returns the data types of the pyramids the object served
+    before (order of first use) - the object's history, needed for a replay"""
+    from neuroglancer_scripts import downscaling
+    key = (method, outside_value, info.get("type") if method == "auto" else None)
+    if key not in _SHARED:
+        opts = {"outside_value": outside_value} if outside_value is not None else {}
+        _SHARED[key] = downscaling.get_downscaler(method, info, opts)
+        _SHARED_SEEN[key] = []
+    prior = list(_SHARED_SEEN[key])
+    if info["data_type"] not in _SHARED_SEEN[key]:
+        _SHARED_SEEN[key].append(info["data_type"])
+    return _SHARED[key], prior
+
+
+def run_cli(argv, tool="compute_scales"):
+    """scripts.<tool>.main(argv) in this process; the accessor the tool
     creates must not stay registered with atexit (its directory is removed),
-    the logging configuration of the tool is undone."""
+    the logging configuration of the tool is undone.  Returns main's return
+    value (the process exit status: None / 0 = success)."""
     import atexit
+    import importlib
     import logging
-    from neuroglancer_scripts.scripts import compute_scales
+    compute_scales = importlib.import_module("neuroglancer_scripts.scripts." + tool)
     registered = []
     real_register = atexit.register
 
@@ -285,8 +316,7 @@ def run_pyramid(workdir, info, storage, vol, method, pattern, outside_value=None
                     else:
                         acc = open_accessor(d, storage)
                         pio = precomputed_io.get_IO_for_existing_dataset(acc)
-                        opts = {"outside_value": outside_value} if outside_value is not None else {}
-                        ds = downscaling.get_downscaler(method, pio.info, opts)
+                        ds, res["shared_prior"] = shared_downscaler(method, pio.info, outside_value)
                         dyadic_pyramid.compute_dyadic_scales(pio, ds)
                 except Exception as e:  # recorded, judged by TLC
                     res["raised"] = type(e).__name__
@@ -305,6 +335,75 @@ def run_pyramid(workdir, info, storage, vol, method, pattern, outside_value=None
             pio2 = precomputed_io.get_IO_for_existing_dataset(acc2)
             for k in range(len(info["scales"])):
                 arr, missing = read_level(pio2, info, k)
+                res["levels"].append(arr)
+                res["missing"].append(missing)
+    finally:
+        tempfile.tempdir = old_tmp
+        shutil.rmtree(d, ignore_errors=True)
+    return res
+
+
+def run_all_in_one(workdir, vol, pattern, dataset_type=None, encoding=None, storage="gzip",
+                   method="auto", outside_value=None, explicit_auto=False):
+    """the all-in-one tool scripts.volume_to_precomputed_pyramid.main(argv) on a
+    NIfTI file holding vol (1, Z, Y, X), np.empty of the pyramid module
+    poisoned; returns what run_pyramid returns plus the FINAL info."""
+    import nibabel
+    from neuroglancer_scripts import dyadic_pyramid, precomputed_io
+    d = tempfile.mkdtemp(prefix="v2pp_", dir=workdir)
+    old_tmp = tempfile.tempdir
+    tempfile.tempdir = workdir
+    res = {"raised": "", "msg": "", "levels": [], "missing": [], "empties": 0, "started": [],
+           "intact": None, "info": None}
+    real_step = dyadic_pyramid.compute_dyadic_downscaling
+
+    def logged_step(info_, source_scale_index, *a, **kw):
+        res["started"].append(int(source_scale_index))
+        return real_step(info_, source_scale_index, *a, **kw)
+
+    try:
+        with quiet():
+            nii = os.path.join(d, "in.nii")
+            xyz = np.ascontiguousarray(np.transpose(vol[0], (2, 1, 0)))
+            nibabel.save(nibabel.Nifti1Image(xyz, np.eye(4), dtype=xyz.dtype), nii)
+            out = os.path.join(d, "out")
+            argv = ["volume-to-precomputed-pyramid"]
+            if method != "auto" or explicit_auto:
+                argv += ["--downscaling-method", method]
+            if outside_value is not None:
+                argv += ["--outside-value", str(outside_value)]
+            if dataset_type is not None:
+                argv += ["--type", dataset_type]
+            if encoding is not None:
+                argv += ["--encoding", encoding]
+            if storage == "flat":
+                argv += ["--flat"]
+            if storage in ("deep", "flat"):
+                argv += ["--no-gzip"]
+            argv += [nii, out]
+            res["argv"] = argv[1:-2]
+            with poisoned(pattern) as proxy:
+                dyadic_pyramid.compute_dyadic_downscaling = logged_step
+                try:
+                    rc = run_cli(argv, "volume_to_precomputed_pyramid")
+                    if rc:
+                        res["raised"] = "exit:%s" % rc
+                except Exception as e:  # recorded, judged by TLC
+                    res["raised"] = type(e).__name__
+                    res["msg"] = str(e)[:120]
+                except SystemExit as e:
+                    res["raised"] = "SystemExit:%s" % (e.code,)
+                finally:
+                    dyadic_pyramid.compute_dyadic_downscaling = real_step
+            res["empties"] = proxy.empties
+            try:
+                pio2 = precomputed_io.get_IO_for_existing_dataset(open_accessor(out, storage))
+            except Exception as e:
+                res["setup_error"] = "no info: " + type(e).__name__
+                return res
+            res["info"] = json.loads(json.dumps(pio2.info))
+            for k in range(len(pio2.info["scales"])):
+                arr, missing = read_level(pio2, pio2.info, k)
                 res["levels"].append(arr)
                 res["missing"].append(missing)
     finally:
@@ -333,10 +432,23 @@ def reference_downscaler(name, outside_value=None):
     raise ValueError(name)
 
 
-def global_reference(prev, info, k, method, outside_value=None):
+def ratio_factors(info, k):
+    """for size pairs outside the 1 / 2 relation: the smallest factor f per axis
+    with ceil(old / f) = new (None when there is none)"""
+    a, b = info["scales"][k]["size"], info["scales"][k + 1]["size"]
+    out = []
+    for x, y in zip(a, b):
+        fs = [f for f in range(1, x + 1) if -(-x // f) == y]
+        if not fs:
+            return None
+        out.append(fs[0])
+    return out
+
+
+def global_reference(prev, info, k, method, outside_value=None, factors=None):
     """the implementation's own downscaler applied to the WHOLE previous level"""
     ds = reference_downscaler(method, outside_value)
-    return np.asarray(ds.downscale(prev, pair_factors(info, k)))
+    return np.asarray(ds.downscale(prev, factors or pair_factors(info, k)))
 
 
 def flat_ints(arr, scale=1):
